@@ -41,6 +41,7 @@ DEFAULT_PROFILE = {
     "p_np_ints": 0.08,  # pop_size, generations, limits as numpy.int64
     "p_np_return": 0.15,  # the objective returns numpy.float64 (what np.sum(x ** 2) gives)
     "p_inf_objective": 0.06,  # infinite (never NaN) objective values: death-penalty wall / infinitely good pocket
+    "p_no_elite": 0.0,
     "p_bounds_int": 0.1,  # bounds given as an integer array, as in the README
     "p_long_run": 0.04,  # 40-80 metaepochs with small populations: archives wrap round, CMA-ES terminates itself, ...  # entry "tree" replaced by a manual `while not gsc(tree): tree.run_step()` loop
     "metaepochs": [2, 12],
@@ -403,6 +404,10 @@ def gen_plan(seed, prof=None, prop="GEN"):
     r3 = random.Random(seed ^ 0xB0B0)
     if r3.random() < prof.get("p_bounds_int", 0.0) and all(float(v).is_integer() for b in plan["box"] for v in b):
         plan["bounds_int"] = True  # np.array([(-5, 5)] * 2), as in the README: an integer array
+    if "levels" in plan and r3.random() < prof.get("p_no_elite", 0.0):
+        for l in plan["levels"]:
+            if l["engine"] == "ea" and l.get("ea") != "MWEA" and "k_elites" in l and r3.random() < 0.7:
+                l["k_elites"] = 0  # a non-elitist ("comma") strategy
     if r3.random() < prof.get("p_inf_objective", 0.0) and "levels" in plan and not plan.get("stack_objectives") \
             and plan["objective"]["kind"] not in ("nanregion", "clipint"):
         o = plan["objective"]
